@@ -538,9 +538,10 @@ def gen(tier, rng, shard, nshards):
     def sync():
         """every generator family restarts the shard counter at a fixed value: which shard takes the j-th item of a family does
         not depend on how many items the (seeded, per-shard) random choices produced in earlier families"""
-        nonlocal k, fam
+        nonlocal k, fam, i
         fam += 1
         k = fam * 5
+        i = fam * 13        # `i` drives the rotation of file kinds / entry points: the same item gets the same rotation on every shard
 
     def fk(i, n=0):
         """file kind rotation for the ff entry points; the BytesIO handed to from_file stands at 0, inside, at or behind the
